@@ -385,9 +385,10 @@ def parse_output(r):
     for c in fails:
         if c in unsupported:
             continue
-        if any(a.search(key(c)) for a in h.allow):
+        if "RETURNED" in c["desc"] or "VACUITY_WITNESS" in c["desc"]:
+            offending.append(c)  # never allowed by a pattern
             continue
-        if any(a.search(key(c)) for a in h.must_fail):
+        if any(a.search(key(c)) for a in h.allow):
             continue
         offending.append(c)
     if "witness" in h.flags:
